@@ -190,3 +190,84 @@ def prop_c20shared(cname, scenario, aop, k1, k2, stride, offset):
             return f"FAIL result {bad} of the second thread differs ({where})"
         done += 1
     return f"ok {done} of {total}"
+
+
+@op("prop.c20edw")
+def prop_c20edw(cname, k1, k2, stride, offset):
+    """the same for the twisted-Edwards generators (Ed25519 / Ed448), which build their table in a method of their own: thread A's
+    first k1*G is preempted before every (offset mod stride)-th source line, thread B then multiplies and doubles on the same
+    object; results compared with those of unshared fresh generators"""
+    from register_crypto_plugin.ecdsa import eddsa as _ed
+    g0 = {"Ed25519": _ed.generator_ed25519, "Ed448": _ed.generator_ed448}[cname]
+    k1, k2, stride, offset = int(k1), int(k2), int(stride), int(offset)
+
+    def fresh():
+        return _ec.PointEdwards(g0.curve(), int(g0.x()), int(g0.y()), 1, int(g0.x()) * int(g0.y()) % int(g0.curve().p()),
+                                int(g0.order()), generator=True)
+
+    def aff(P):
+        return None if P == _INF else (int(P.x()), int(P.y()))
+    opA = lambda P: aff(P * k1)
+    b_ops = [lambda P: aff(P * k2), lambda P: aff(P.double()), lambda P: aff(P * (k2 + 1))]
+    want_a = opA(fresh())
+    want_b = [ob(fresh()) for ob in b_ops]
+    count = [0]
+
+    def counter(frame, event, arg):
+        if event == "call" and frame.f_code.co_filename == EC_FILE:
+            def local(fr, ev, ar):
+                if ev == "line":
+                    count[0] += 1
+                return local
+            return local
+        return None
+    Pc = fresh()
+    sys.settrace(counter)
+    try:
+        opA(Pc)
+    finally:
+        sys.settrace(None)
+    total = count[0]
+    done = 0
+    for k in range(offset, total, stride):
+        P = fresh()
+        seen = [0]
+        got_b = []
+
+        def tracer(frame, event, arg):
+            if event == "call" and frame.f_code.co_filename == EC_FILE:
+                def local(fr, ev, ar):
+                    if ev == "line":
+                        if seen[0] == k:
+                            sys.settrace(None)
+                            try:
+                                for ob in b_ops:
+                                    try:
+                                        got_b.append(ob(P))
+                                    except Exception as e:
+                                        got_b.append(f"{type(e).__name__}")
+                            finally:
+                                seen[0] += 1
+                                sys.settrace(tracer)
+                            return None
+                        seen[0] += 1
+                    return local
+                return local
+            return None
+        sys.settrace(tracer)
+        try:
+            try:
+                got_a = opA(P)
+            finally:
+                sys.settrace(None)
+        except Exception as e:
+            return f"FAIL preempted operation raises {type(e).__name__} (preemption before line event {k} of {total})"
+        where = f"preemption before line event {k} of {total} of k*G on the shared {cname} generator"
+        if got_a != want_a:
+            return f"FAIL result of the preempted thread differs ({where})"
+        if got_b and got_b != want_b:
+            bad = [i for i, (x, y) in enumerate(zip(got_b, want_b)) if x != y]
+            return f"FAIL result {bad} of the second thread differs ({where})"
+        done += 1
+    return f"ok {done} of {total}"
+
